@@ -11,7 +11,16 @@ Theorem sixel_rect : forall (hsl : Z -> Z -> Z -> rgb) pal0 vs hs (data : list Z
   parse_from hsl pal0 vs hs data = Ok (w, h, d) -> Z.of_nat (length d) = 4 * w * h.
 Proof. exact sixel_rect_proof. Qed.
 
-(* a raster header with >= 3 numbers fixes the height ... *)
+(* after the fix (MAX_SIXEL_DIMENSION = 4096, the constant of src/sixel_mod.rs): no decoded image is wider or taller than the limit, whatever
+   raster header, repeat counts or cursor movements the payload holds - a payload that would exceed it is an error (InvalidPictureSize) *)
+Theorem sixel_dims_bounded : forall (hsl : Z -> Z -> Z -> rgb) pal0 vs hs (data : list Z) w h d,
+  parse_from hsl pal0 vs hs data = Ok (w, h, d) -> 0 <= w <= MAX_SIXEL_DIMENSION /\ 0 <= h <= MAX_SIXEL_DIMENSION.
+Proof. exact sixel_dims_bounded_proof. Qed.
+(* the limit of the model is the constant of the source (Gen/SixelGen.v is regenerated from src/sixel_mod.rs every run) *)
+Theorem max_dim_tied : MAX_SIXEL_DIMENSION = MAX_SIXEL_DIMENSION_SRC.
+Proof. reflexivity. Qed.
+
+(* a raster header with >= 3 numbers (each <= MAX_SIXEL_DIMENSION: a larger one is not `Ok`) fixes the height ... *)
 Theorem raster_declares_height : forall s s', finish_size s = Ok s' -> (3 <= length (nums s))%nat ->
   hset s' = true /\ st s' = Read /\ height (rows s') = Z.max 0 (last (nums s) 0).
 Proof. exact finish_size_declares. Qed.
@@ -76,6 +85,15 @@ Proof. vm_compute. repeat split. Qed.
 Example raster_example :
   match parse_from hsl0 DOS_DEFAULT_PALETTE 1 1 [34; 49; 59; 49; 59; 51; 59; 55; 126; 126; 126; 126; 45; 126; 45; 126] with
   | Ok (w, h, d) => w = 4 /\ h = 7 /\ length d = 112%nat | _ => False end.
+Proof. vm_compute. repeat split. Qed.
+(* the limit: a raster header, a repeat count and a cursor position beyond it are errors (class 3 = InvalidPictureSize), at the limit they decode *)
+Example limit_examples :
+  parse_from hsl0 DOS_DEFAULT_PALETTE 1 1 [34; 49; 59; 49; 59; 52; 48; 57; 55; 59; 49; 126] = Err 3 /\         (* raster 1;1;4097;1 *)
+  parse_from hsl0 DOS_DEFAULT_PALETTE 1 1 [34; 49; 59; 49; 59; 49; 59; 52; 48; 57; 55; 126] = Err 3 /\         (* raster 1;1;1;4097 *)
+  parse_from hsl0 DOS_DEFAULT_PALETTE 1 1 [33; 52; 48; 57; 55; 126] = Err 3 /\                                  (* !4097~ *)
+  parse_from hsl0 DOS_DEFAULT_PALETTE 1 1 [33; 52; 48; 57; 54; 126; 126] = Err 3 /\                             (* !4096~~ : pixel column 4096 *)
+  match parse_from hsl0 DOS_DEFAULT_PALETTE 1 1 [33; 52; 48; 57; 54; 63] with Ok (w, h, d) => w = 0 /\ h = 6 | _ => False end /\   (* !4096? : nothing drawn *)
+  match parse_from hsl0 DOS_DEFAULT_PALETTE 1 1 [34; 49; 59; 49; 59; 50; 59; 52; 48; 57; 54; 126] with Ok (w, h, d) => w = 2 /\ h = 4096 | _ => False end.
 Proof. vm_compute. repeat split. Qed.
 (* a schedule with three images finishing in reverse order, polls in between *)
 Definition oc3 (id : nat) : outcome := match id with O => OOk (0, 0, 8, 8) | 1%nat => OErr | _ => OOk (0, 0, 16, 16) end.
